@@ -51,7 +51,8 @@ def main(tier, replay=None):
             case_by_key[f[0] + " " + f[1]] = line
 
     # --- correspondence: status of every operation and the full snapshot after it
-    diffs = [k for k in case_by_key if impl.get(k, "") != model.get(k, "")]
+    diffs = [k for k in case_by_key if not k.startswith("F ") and impl.get(k, "") != model.get(k, "")]
+    f3 = [impl[k] for k in case_by_key if k.startswith("F ") and k in impl]
 
     # --- monitor: the extracted executable property on the implementation's own observations
     spec_in = os.path.join(rd, "spec.in")
@@ -140,9 +141,10 @@ def main(tier, replay=None):
         "monitor_cases": n_mon,
         "monitor_violations": mon_viol,
         "known_class_hits": known_hits,
+        "f3_probe_not_a_C08_clause": f3,
         "disagreements_checked": len(diffs),
         "exhaustive": False,
-        "exhaustive_parts": "every sequence of length <= 4 (PASE/AddNOC profile) and <= 3 (CASE/UpdateNOC profile; <= 5 both in thorough) "
+        "exhaustive_parts": "every sequence of length <= 4 (<= 5 in thorough) for the PASE/AddNOC profile and for the CASE/UpdateNOC profile "
                             "over a 7-command alphabet, each followed by one of 7 ways of ending the commissioning and a probe command",
     })
     c.finish(level="proof",
